@@ -318,6 +318,28 @@ def many_families_case(draw, min_fam=9, max_fam=11, max_obj=4, max_sp=2):
 
 
 @st.composite
+def repeats_case(draw, min_obj=4, max_obj=7, max_sp=2, max_fam=4, distinct=3):
+    """Many leaves sharing two or three distinct syntenies (what real gene families look like: most copies carry the
+    same content), few species, no prescribed root."""
+    otree, stree, los = draw(trees_and_leaves(max_obj, max_sp, min_obj, 1))
+    nf = draw(st.integers(2, max_fam))
+    fams = [f"g{i}" for i in range(nf)]
+    order = draw(st.permutations(fams))
+    pool = []
+    for _ in range(draw(st.integers(2, distinct))):
+        mask = draw(st.integers(1, 2**nf - 1))
+        pool.append([f for i, f in enumerate(order) if mask >> i & 1])
+    syn = {leaf: list(pool[draw(st.integers(0, len(pool) - 1))]) for leaf in los}
+    return {
+        "object_tree": nested_to_newick(otree, "O"),
+        "species_tree": nested_to_newick(stree, "S"),
+        "leaf_object_species": los,
+        "leaf_syntenies": syn,
+        "costs": draw(coherent_costs(labelled=True)),
+    }
+
+
+@st.composite
 def deep_chain_case(draw, min_obj=6, max_obj=8, max_sp=3, max_fam=5, ordered=False, costs="coherent", maxcost=3):
     """A caterpillar object tree (one chain of min_obj-1 .. max_obj-1 nested ancestors) over few species with
     independently drawn leaf contents: the shape on which inheritance runs through several consecutive
